@@ -39,6 +39,8 @@ def r18_2(prog, rep):
     nxt = [b for b in body.calls() if b.term.cmethod == 'next' and b.term.ctrait == 'std::iter::Iterator']
     parses = [b for b in body.calls() if cnorm(b.term).endswith('parse_openssl_25519_pubkey_der')]
     pushes = [b for b in body.calls() if b.term.cmethod == 'push' and 'Vec' in cnorm(b.term)]
+    if not nxt and not pushes and not parses:
+        return r18_2_collect(prog, rep, body)
     if len(nxt) != 1 or len(parses) != 1 or len(pushes) != 1:
         rep.ob('R18.2', False, 'R18.2|%s|anchors' % body.nkey, 'expected one iterator step, one per-block parse and one push (found %d / %d / %d)' % (len(nxt), len(parses), len(pushes)), body.loc())
         return
@@ -77,6 +79,35 @@ def r18_2(prog, rep):
            if st.kind == 'assign' and st.place == (0, ()) and st.rv.r == 'aggregate' and st.rv.j.get('variant') == 'Ok']
     okr = len(oks) == 1 and oks[0][2].rv.ops[0].place is not None and bool(origins(body, [oks[0][2].rv.ops[0].place[0]], through_calls=False).locals & vo)
     rep.ob('R18.2', okr, 'R18.2|%s|returns-the-pushed-vector' % body.nkey, 'Ok(..) returns the vector the keys were pushed to' if okr else 'the Ok result is not the vector the keys were pushed to', body.loc())
+
+
+ITER_ORDER_PRESERVING = {'iter', 'into_iter', 'map', 'collect', 'by_ref', 'copied', 'cloned', 'deref', 'as_slice', 'as_ref', 'branch', 'from_residual', 'into', 'from',
+                         'parse_many', 'map_err', 'inspect_err', 'inspect'}
+
+
+def r18_2_collect(prog, rep, body):
+    """iterator form of the same function: `parse_many(data)?.iter().map(|block| .. parse_der(block.contents())).collect()`. One element per
+    PEM block, in order, as long as the chain from parse_many to the result only uses one-to-one, order-preserving adapters (map; never filter,
+    rev, skip, take, dedup, ...) and the closure's Ok value is the key parsed from its block."""
+    key = 'R18.2|%s|' % body.nkey
+    o = origins(body, [0])
+    chain = [body.blocks[c].term for c in o.calls]
+    pm = [t for t in chain if t.cmethod == 'parse_many']
+    col = [t for t in chain if t.cmethod == 'collect' and t.ctrait == 'std::iter::Iterator']
+    maps = [t for t in chain if t.cmethod == 'map' and t.ctrait == 'std::iter::Iterator']
+    other = sorted({t.cmethod for t in chain if t.cmethod not in ITER_ORDER_PRESERVING})
+    ok = len(pm) == 1 and len(col) == 1 and len(maps) == 1 and not other
+    rep.ob('R18.2', ok, key + 'every-parsed-key-pushed', 'result = parse_many(..).iter().map(parse).collect(): one element per PEM block, in order' if ok else
+           'the result is not built by a one-to-one, order-preserving iterator chain over the PEM blocks (parse_many=%d map=%d collect=%d other adapters=%s)'
+           % (len(pm), len(maps), len(col), other), body.loc())
+    clos = [c for c in prog.closures_of(body) if any(cnorm(b.term).endswith('parse_openssl_25519_pubkey_der') for b in c.calls())]
+    okc = len(clos) == 1
+    if okc:
+        c = clos[0]
+        rep.fn(c)
+        pz = [b for b in c.calls() if cnorm(b.term).endswith('parse_openssl_25519_pubkey_der')]
+        okc = len(pz) == 1 and must_derive_ip(prog, c, 0, lambda k, ob, bb: k == 'call' and bb == pz[0].idx, extra_transparent=('branch',))
+    rep.ob('R18.2', bool(okc), key + 'pushed-value-is-parsed-key', 'the closure yields the key parsed from its PEM block' if okc else 'the mapping closure does not (only) yield the key parsed from its block', body.loc())
 
 
 def thorough_extra(rep, verif, repo):
